@@ -210,6 +210,22 @@ int main(int argc, char **argv)
                 }
             }
         }
+        // a runtime may deliver fewer members than requested (thread limit, dynamic adjustment, nested region): still the same output
+        if (mode == "seq" && verif_omp_set_mode)
+        {
+            for (int req : {4, 16, 64})
+                for (int delivered : {1, 2, 3})
+                {
+                    verif_omp_set_mode(1, vf::mix64(args.seed, i * 77 + req + delivered) | 1, delivered);
+                    execute(w, req, got, args.seed);
+                    rep.evaluations++;
+                    if (got.size() != ref.size() || memcmp(got.data(), ref.data(), ref.size() * 8) != 0)
+                        rep.violation("C12:" + mode + ":" + w.name() + ":output-differs-when-team-smaller-than-requested",
+                                      J().raw("workload", w.json()).i("requested", req).i("delivered", delivered).done());
+                    rep.cls("team:delivered_smaller_than_requested");
+                }
+            verif_omp_set_mode(1, 0, 0);
+        }
         rep.nontrivial(vf::mix64(i, w.kind));
         if (i % 53 == 0) rep.sample(w.name(), w.json());
     }
